@@ -36,6 +36,7 @@ type cbModel struct {
 	// half-open
 	permits     int
 	outstanding int // trial permits handed out and not yet returned
+	bonus       int // results recorded in half-open by nobody who held a permit (stragglers admitted earlier, direct Record* calls): the statement does not say whether each frees a permit, so that many extra admissions are accepted either way
 	events      []string
 }
 
@@ -181,6 +182,7 @@ func (m *cbModel) transition(to circuitbreaker.State, delay int64) {
 		m.recs = nil
 		m.permits = m.capacityHalfOpen()
 		m.outstanding = 0
+		m.bonus = 0
 	}
 	m.state = to
 }
@@ -314,17 +316,13 @@ func (r *cbRun) Enabled(op string) bool {
 	m := r.m
 	switch op {
 	case "succ", "fail", "res0", "res1", "errE1", "errE2":
-		// in half-open a result is only recorded by someone who holds a trial permit
-		if m.state == circuitbreaker.HalfOpenState {
-			return m.outstanding > 0
-		}
 		return true
 	case "t->delay-1", "t->delay":
 		return m.state == circuitbreaker.OpenState && m.now() < m.openedAt+m.delay-boolInt(op == "t->delay-1")
 	case "t+slice-1", "t+slice", "t+3slices", "t+8slices", "t+P":
 		return r.s.FPeriod != 0
 	case "execOk", "execErr":
-		return m.state != circuitbreaker.HalfOpenState || m.outstanding == 0 || m.permits > 0
+		return true
 	}
 	return true
 }
@@ -338,7 +336,7 @@ func boolInt(b bool) int64 {
 
 func (r *cbRun) Key() string {
 	m := r.m
-	return fmt.Sprintf("%s|t=%d|%v|%v|%d|%d|%v", dumpState(r.cb), vrt.Elapsed(), m.state, m.recs, m.permits, m.outstanding, m.dirtyOpen)
+	return fmt.Sprintf("%s|t=%d|%v|%v|%d|%d|%v", dumpState(r.cb), vrt.Elapsed(), m.state, m.recs, m.permits, m.outstanding, m.dirtyOpen) + fmt.Sprint("|", m.bonus)
 }
 
 // Apply performs op on both sides and compares.
@@ -363,9 +361,8 @@ func (r *cbRun) Apply(op string) string {
 		want, recorded = r.record(!isFailure(r.s.Handle, 0, E2), func() { r.cb.RecordError(E2) })
 	case "acq":
 		got := r.cb.TryAcquirePermit()
-		exp := m.acquire()
-		if got != exp {
-			return fmt.Sprintf("TryAcquirePermit returned %v in state %v at t=%d, the documented machine says %v", got, m.state, m.now(), exp)
+		if exp := m.acquireGiven(got); got != exp {
+			return fmt.Sprintf("TryAcquirePermit returned %v in state %v at t=%d, the documented machine says %v (free trial permits %d, in progress %d)", got, m.state, m.now(), exp, m.permits, m.outstanding)
 		}
 	case "open":
 		r.cb.Open()
@@ -383,7 +380,7 @@ func (r *cbRun) Apply(op string) string {
 		}
 		invoked := false
 		v, err := failsafe.NewExecutor[int](r.cb).Get(func() (int, error) { invoked = true; return 1, fnErr })
-		admitted := m.acquire()
+		admitted := m.acquireGiven(invoked)
 		if !admitted {
 			if !errors.Is(err, circuitbreaker.ErrOpen) || invoked {
 				return fmt.Sprintf("execution in state %v at t=%d: got (%d,%v) invoked=%v, want ErrOpen without invoking the function", m.state, m.now(), v, err, invoked)
@@ -395,10 +392,7 @@ func (r *cbRun) Apply(op string) string {
 			ok := !isFailure(r.s.Handle, 1, fnErr)
 			want = m.requirement(ok)
 			recorded = true
-			if m.state == circuitbreaker.HalfOpenState {
-				m.outstanding--
-				m.permits++
-			}
+			m.release()
 			if m.state == circuitbreaker.OpenState {
 				m.dirtyOpen = true
 			}
@@ -441,14 +435,41 @@ func (r *cbRun) record(ok bool, do func()) (string, bool) {
 	m := r.m
 	do()
 	want := m.requirement(ok)
-	if m.state == circuitbreaker.HalfOpenState {
-		m.outstanding--
-		m.permits++
-	}
+	m.release()
 	if m.state == circuitbreaker.OpenState {
 		m.dirtyOpen = true
 	}
 	return want, true
+}
+
+// release: a result has been recorded. In half-open a holder gives its permit back; a result recorded
+// by nobody who held one may or may not free a permit.
+func (m *cbModel) release() {
+	if m.state != circuitbreaker.HalfOpenState {
+		return
+	}
+	if m.outstanding > 0 {
+		m.outstanding--
+		m.permits++
+	} else {
+		m.bonus++
+	}
+}
+
+// acquireGiven is acquire with the implementation's answer at hand: where the statement leaves the
+// admission open (only "bonus" permits left) that answer is adopted.
+func (m *cbModel) acquireGiven(real bool) bool {
+	if m.state == circuitbreaker.OpenState && m.now()-m.openedAt >= m.delay {
+		m.transition(circuitbreaker.HalfOpenState, 0)
+	}
+	if m.state == circuitbreaker.HalfOpenState && m.permits == 0 && m.bonus > 0 {
+		if real {
+			m.bonus--
+			m.outstanding++
+		}
+		return real
+	}
+	return m.acquire()
 }
 
 func (m *cbModel) acquire() bool {
@@ -632,7 +653,7 @@ func init() {
 		Rule: "a state is reached by replaying an operation history (records, permit requests, executions, manual transitions, clock advances onto slice and delay boundaries) on a fresh real breaker under the virtual clock; " +
 			"states are merged only when the exact dump of the breaker, the clock and the model state coincide; distinct = distinct states",
 		Assume: []string{"window envelope: results older than the period never count, those from its most recent nine tenths always do (in between either reading is accepted)",
-			"percentage thresholds within half a point of the threshold accept either decision", "in half-open, results are recorded only by holders of a trial permit",
+			"percentage thresholds within half a point of the threshold accept either decision", "a result recorded in half-open by nobody who holds a trial permit (a straggler admitted earlier, a direct Record* call) counts as a trial result; whether it also frees a permit is not stated: that many admissions beyond the free permits are accepted either way, admissions within the free permits are required",
 			"metrics of an open breaker are compared only while nothing has been recorded since it opened"},
 		Budget: map[string]time.Duration{"quick": 240 * time.Second},
 		Units: func(tier string) []Unit {
